@@ -73,9 +73,9 @@ DELAYS = [0, 0, "y", "y", 0.05, 0.1, 0.1, 0.2, 0.35]
 
 def plan(tier, seed):
     if tier == "quick":
-        n, per, api = 16, 90, 10
+        n, per, api = 16, 220, 20
     else:
-        n, per, api = 64, 600, 40
+        n, per, api = 64, 900, 60
     return [{"seed": seed * 1000 + i, "n": per, "api": api, "tier": tier} for i in range(n)]
 
 
